@@ -49,6 +49,28 @@ class Cfg:
         return time.monotonic() - self.t0
 
 
+CALLER_ENV = [None]
+
+
+def caller_environment():
+    """Interpreter-wide settings that belong to the CALLER of the library, changed the way an application
+    legitimately changes them for its own work before it uses the library: the decimal context (6 significant
+    digits, rounding down -- the value the decimal documentation itself uses in its examples) and numpy's print
+    options.  The library's behaviour must not depend on them.  One shard of every check runs like this."""
+    import decimal
+
+    ctx = decimal.getcontext()
+    ctx.prec = 6
+    ctx.rounding = decimal.ROUND_DOWN
+    try:
+        import numpy as np
+
+        np.set_printoptions(precision=3, suppress=True, floatmode="fixed")
+    except Exception:
+        pass
+    CALLER_ENV[0] = "decimal context prec=6 ROUND_DOWN; numpy printoptions precision=3"
+
+
 class Recorder:
     MAX_SAMPLES = 24
     MAX_WITNESS_PER_KEY = 3
@@ -108,6 +130,10 @@ class Recorder:
                 witness = dict(witness, python_optimize=sys.flags.optimize)
                 if "summary" in witness:
                     witness["summary"] += "  [observed under python -O]"
+            if isinstance(witness, dict) and CALLER_ENV[0]:
+                witness = dict(witness, caller_environment=CALLER_ENV[0])
+                if "summary" in witness:
+                    witness["summary"] += f"  [observed with the caller's own settings in force: {CALLER_ENV[0]}]"
             v["witnesses"].append(witness)
 
     def dump(self, path, cfg):
